@@ -56,7 +56,9 @@ CHECKS["C12"] = ("fault_enumeration",
     "download inside a multi-block poll), how many failing polls it lasts and whether blocks are mined meanwhile. The node is "
     "brought back and recovery must happen by itself: a thread still blocked 14 s later (Carrier probe interval 10 s + slack) "
     "is a violation. Outage.tla checks the lock/flag protocol exhaustively (and, as a vacuity check, that the protocol "
-    "without the Carrier's own probe deadlocks).",
+    "without the Carrier's own probe deadlocks). The same on the REAL teosd binary (end-to-end tier: answers of one RPC method / of "
+    "the whole simulated node dropped; from the tower's first dropped RPC every request must be answered 'service unavailable'; "
+    "catch-up by itself afterwards).",
     TOWER_NOTE + "; real-time bound for 'blocked for ever'; in the scenario where a blocked request and the chain thread run "
     "concurrently only the no-thread-blocked clause is judged",
     "DESIGN.md section 6 C12")
